@@ -31,7 +31,7 @@ impl Prop for C12 {
                     "一", "a一", "一a", "--一", "ab\n一二", "é", "\u{301}", "a\u{301}b", "🙂", "-🙂",
                     "\"hello world\"", "\"a\"", "x \"ab\"", "+--+\n|  | \"out\"\n+--+", "a\n\"b\"", "\"一二\" |",
                     "+--+\n|  |\n+--+\n# Legend:\na = {fill:red}\n", "ab\n# Legend:\n",
-                    "漢字漢字 \"abcdefgh\" |", "一 \"a\" -", "é一 \"lbl\"|", "+--+\r\n|ab|\r\n+--+\r\n", "a\r\nb\r\nc", "*-->\r\n\r\ntext\r\n",
+                    "漢字漢字 \"abcdefgh\" |", "漢字漢字漢字 \"abcdefgh\" |", "一二三四五六七八 \"abcdefghij\"|", "一 \"a\" -", "é一 \"lbl\"|", "+--+\r\n|ab|\r\n+--+\r\n", "a\r\nb\r\nc", "*-->\r\n\r\ntext\r\n",
                     "", " ", "\n\n", "   \n  ",
                 ] {
                     f(Case::s(d));
